@@ -139,6 +139,8 @@ def _cleanup(pid, path):
 def home_dir():
     """Per-process HOME (workers are forked, so each gets its own; the library's frozen default
     key-file path is re-pointed to match, keeping `~/.cincokey` semantics)."""
+    if os.environ.get("VERIF_FIXED_HOME"):       # a child session that must share its parent's home
+        return os.environ["VERIF_FIXED_HOME"]
     home = os.path.join(worker_dir(), "home")
     if os.environ.get("HOME") != home or not os.path.isdir(home):
         os.makedirs(home, exist_ok=True)
